@@ -115,6 +115,25 @@ def check_un(case):
     if exp[0] == SYM:
         if is_num(v) and rat(x[0]) != 0:
             dis.append({"clause": "Guessed", "detail": "%s = %r although the context cannot resolve it" % (what, v)})
+        # a unit conversion of a length that cannot be resolved even with the default ppi: an exception or the unchanged
+        # symbolic length are both fine; a number of millimetres / inches, or the same unit with another amount, is a guess
+        kw96 = dict(kw)
+        kw96.setdefault("ppi", 96.0)
+        try:
+            unresolved = not is_num(svg.Length(s).value(**kw96))
+        except Exception:
+            unresolved = False
+        if unresolved and rat(x[0]) != 0:
+            for nm, meth in (("mm", "to_mm"), ("cm", "to_cm"), ("in", "to_inch")):
+                try:
+                    r = getattr(svg.Length(s), meth)(**kw)
+                except engine.CaseTimeout:
+                    raise
+                except Exception:
+                    continue
+                same_as_value = isinstance(r, svg.Length) and isinstance(v, svg.Length) and r.units == v.units and abs(r.amount - v.amount) <= 1e-12 * max(1.0, abs(r.amount))
+                if not same_as_value and (not isinstance(r, svg.Length) or r.units == nm or not (r.units == x[1] and abs(r.amount - float(rat(x[0]))) <= 1e-12 * max(1.0, abs(r.amount)))):
+                    dis.append({"clause": "Convert:Guessed", "detail": "Length(%r).%s(%s) = %r although the context cannot resolve the length" % (s, meth, kw, r), "target": nm})
     else:
         want = rat(exp[0])
         if not is_num(v):
